@@ -1,17 +1,39 @@
 PROP = dict(
     title="Subscription matching selects exactly the MQTT-matching subscribers",
     design_ref="DESIGN.md section 8, C01",
-    technique="Coq refinement proof: the trie model of topics.go (set/seek/trim, scanSubscribers, gather*) selects, "
-              "for every operation history and every topic name, exactly the subscriptions whose filter matches under "
-              "the MQTT rules (topic_matches, written from the standard); model tied to the Go code by differential "
-              "execution of the real TopicsIndex on exhaustive small-alphabet sets and random histories",
-    level_text="WORK IN PROGRESS",
-    level_note="WORK IN PROGRESS",
+    technique="Coq refinement proof: the model of topics.go (particle tree as a nested inductive, set/seek/trim, "
+              "scanSubscribers with its [key; \"+\"] loop, gather*) is shown, through the map content_at : path -> "
+              "particle contents, to select for every operation history and every topic name exactly the client, "
+              "shared and inline subscriptions whose filter matches under topic_matches (written from MQTT 4.7 / 4.8.2); "
+              "model tied to the Go code by differential execution of the real TopicsIndex (extracted model + spec "
+              "decide every observation)",
+    level_text="Theorem C01_refines over all operation histories (lists of any length of subscribe / unsubscribe / inline "
+               "/ retain operations) and all topic names: the three result sets of Subscribers(topic) are set-equal to "
+               "the matching subscriptions of the abstract subscription set; shared subscriptions match on the filter "
+               "after $share/<group>/ (C01_shared_on_inner_filter).  The model is a transliteration of ~250 lines of "
+               "topics.go after the fixes d67a363 and 49432f1, compared with the real TopicsIndex on every single "
+               "subscription of depth <= 3 over {a,b,\"\",+,#,$x,$SYS} x 4 flavours x every topic of depth <= 3, every "
+               "pair of shallower subscriptions, and random multi-client histories with unsubscribe.",
+    level_note="Trusted: Coq kernel, extraction (ExtrOcamlBasic), the OCaml driver, the Go harness.  Modelled not verified: "
+               "Go maps (association lists; iteration order is irrelevant because results are compared as sets), "
+               "strings.EqualFold on the share prefix (ASCII case + U+017F), packets.Subscription.Merge (the harness reads the "
+               "per-filter Identifiers it accumulates to recover the (client, filter) pairs).  The byte-level delivery of "
+               "PUBLISH packets to the selected subscribers is the subject of C03, not of this check.",
     engines=[dict(hx="topics_sub", model="topics")],
-    theorems=[],
-    model_files="coq/Topics/Trie.v",
-    rule="",
+    theorems=["C01_refines", "C01_shared_on_inner_filter", "C01_only_matching", "C01_dollar"],
+    model_files="coq/Topics/Trie.v (model), coq/Topics/Match.v + IndexSpec.v (specification)",
+    rule="exhaustive: every subscription of <= 3 levels (thorough 4) over the tokens {a,b,\"\",+,#,$x,$SYS} as client, "
+         "$share/g/, inline and $SHARE/h/ subscription x every topic of <= 3 (4) levels over {a,b,\"\",$x,$SYS}; every "
+         "pair of subscriptions of <= 2 levels (3 flavours, same/different subscriber) x every topic of <= 2 (3) levels; "
+         "random histories of 2-11 operations with unsubscribe over 3 clients / 3 inline ids / filters of <= 6 levels, "
+         "queried on topics instantiated from the filters; ill-formed share filters and wildcard topics for "
+         "correspondence only.  One case = one history + all its queries; non-trivial = some query selected something",
     exhaustive=False,
-    modelled="topics.go TopicsIndex",
-    assumptions=[],
+    modelled="topics.go: TopicsIndex.Subscribe, Unsubscribe, InlineSubscribe, InlineUnsubscribe, set, seek, trim, "
+             "Subscribers, scanSubscribers, gatherSubscriptions, gatherSharedSubscriptions, gatherInlineSubscriptions, "
+             "isolateParticle, SharedSubscriptions/Subscriptions/InlineSubscriptions maps",
+    assumptions=["operations on the index are applied one at a time (concurrency is C31)",
+                 "shared filters have a filter part after $share/<group>/ (IsValidFilter, checked before Subscribe; C30)",
+                 "topic names are non-empty and contain no wildcard characters (IsValidFilter(topic, true); C30)",
+                 "the harness stores a positive Identifier in every client subscription so that Merge records the filter"],
 )
